@@ -486,7 +486,7 @@ impl DnsCache {
         expired_instances
     }
 
-    /// Removes all records of a service type: PTR, SRV, TXT records and any ADDR records
+    /// Removes all records of a service type: PTR, SRV, TXT, NSEC records and any ADDR records
     /// that are not referenced by any SRV record.
     pub(crate) fn remove_service_type(&mut self, ty_domain: &str) {
         let Some(ptr_records) = self.ptr.get_mut(ty_domain) else {
@@ -513,6 +513,10 @@ impl DnsCache {
 
                 // remove all TXT records of this instance
                 self.txt.remove(instance_name);
+
+                // remove all NSEC records and the subtype of this instance
+                self.nsec.remove(instance_name);
+                self.subtype.remove(instance_name);
             }
         }
 
@@ -826,11 +830,13 @@ impl DnsCache {
         // Remove any PTR entry that no longer has records.
         self.ptr.retain(|_, records| !records.is_empty());
 
-        // Clean up SRV and TXT records for fully removed instances.
+        // Clean up SRV, TXT records and the subtype for fully removed instances.
         let all_removed: HashSet<&String> = removed_instances.values().flatten().collect();
         self.srv
             .retain(|instance, _| !all_removed.contains(instance));
         self.txt
+            .retain(|instance, _| !all_removed.contains(instance));
+        self.subtype
             .retain(|instance, _| !all_removed.contains(instance));
 
         // Filter remaining SRV/TXT by intf_id
